@@ -480,7 +480,12 @@ func genOp(c choice.Chooser, shape modeling.Mesh, pool []modeling.Mesh, unsuppor
 		sides := 3 + c.Intn("prim:sides", 3)
 		h := float64(1 + c.Intn("prim:height", 3))
 		rad := []float64{0.5, 1}[c.Intn("prim:radius", 2)]
-		switch c.Intn("prim:kind", 6) {
+		switch c.Intn("prim:kind", 8) {
+		case 6, 7:
+			// valid but unusual: no faces at all, or vertices that no face
+			// uses (construction points) - of the receiver's topology, so
+			// that Append and friends accept it
+			m, name = degenerateMesh(c, shape.Topology())
 		case 0:
 			m, name = primitives.Cone{Sides: sides, Height: h, Radius: rad}.ToMesh(), "primitives.Cone"
 		case 1:
@@ -623,9 +628,38 @@ func genOp(c choice.Chooser, shape modeling.Mesh, pool []modeling.Mesh, unsuppor
 	}
 }
 
+// degenerateMesh: the smallest meshes the constructors accept - an empty mesh,
+// loose vertices without a single index, one primitive. Counts and capacities
+// of zero are where amortised/pooled storage schemes tend to go wrong.
+func degenerateMesh(c choice.Chooser, topo modeling.Topology) (modeling.Mesh, string) {
+	switch c.Intn("degen:kind", 3) {
+	case 0:
+		return modeling.EmptyMesh(topo), "EmptyMesh"
+	case 1:
+		n := 1 + c.Intn("degen:verts", 4)
+		m := modeling.NewMesh(topo, nil).SetFloat3Attribute(modeling.PositionAttribute, gen.F3s(c, "gen:v3", n, false))
+		if choice.Bool(c, "degen:normals") {
+			m = m.SetFloat3Attribute(modeling.NormalAttribute, gen.F3s(c, "gen:v3", n, false))
+		}
+		return m, "loose-vertices"
+	default:
+		n := map[modeling.Topology]int{modeling.TriangleTopology: 3, modeling.PointTopology: 1, modeling.LineStripTopology: 2}[topo]
+		if n == 0 {
+			n = 4
+		}
+		idx := make([]int, n)
+		for i := range idx {
+			idx[i] = i
+		}
+		return modeling.NewMesh(topo, idx).SetFloat3Attribute(modeling.PositionAttribute, gen.F3s(c, "gen:v3", n, false)), "one-primitive"
+	}
+}
+
 // baseMesh draws a starting mesh.
 func baseMesh(c choice.Chooser) (modeling.Mesh, string) {
-	switch c.Intn("base:kind", 8) {
+	switch c.Intn("base:kind", 9) {
+	case 8:
+		return degenerateMesh(c, []modeling.Topology{modeling.TriangleTopology, modeling.TriangleTopology, modeling.PointTopology, modeling.LineStripTopology}[c.Intn("base:degen-topo", 4)])
 	case 0:
 		return primitives.UnitCube(), "UnitCube"
 	case 1:
